@@ -146,7 +146,10 @@ def plan(tier, sd):
         shards, per, syncn = 96, 250, 600
     for i in range(shards):
         jobs.append(("gen-%d" % i, ["gen", str(sd), str(i * per), str((i + 1) * per)]))
-    for mode in ("c08", "c09s", "c09p", "c09r", "c16"):
+    nshift, pshift = (4, 25) if tier == "quick" else (32, 200)
+    for i in range(nshift):
+        jobs.append(("shift-%d" % i, ["shift", str(sd), str(i * pshift), str((i + 1) * pshift)]))
+    for mode in ("c08", "c09s", "c09p", "c09r", "c09x", "c16"):
         k = max(1, syncn // 30)
         for j in range(k):
             a, b = j * (syncn // k), (j + 1) * (syncn // k)
